@@ -31,7 +31,7 @@ FUNCTIONS = ['codegen_hodge', 'codegen_unhodge', 'codegen_polarity', 'codegen_un
              'MultiVector.dual', 'MultiVector.undual', 'codegen_inv (pss.inv())', 'generated hodge_/unhodge_/polarity_/unpolarity_/rp_ functions']
 ASSUMPTIONS = ['coefficients are reals; patterns/configurations enumerated',
                'the Hodge dual is defined relative to the algebra\'s own pseudoscalar blade (custom orientations by definition)']
-BOUNDS = {'quick': 'all (p,q,r) d<=4 (d=4: grade unions/single blades/random sparse), custom bases (named + 12 sampled), wrapper algebras with a second pass; Engine B W=10',
+BOUNDS = {'quick': 'all (p,q,r) d<=4 (d=4: grade unions/single blades/random sparse), 11 signatures of d=5,6 (sparse), custom bases (named + 12 sampled), wrapper algebras with a second pass; Engine B W=10',
           'thorough': 'all (p,q,r) d<=6 (sparse above 4), 100 sampled custom bases; Engine B W=14'}
 OUTSIDE = ['d > 6', "dual(kind='auto') for r > 1 (property silent)", 'floating-point rounding']
 OPTS = {'rlimit': 100_000_000, 'canary_every': 15}
@@ -49,6 +49,8 @@ def _cfg_list(tier, rng):
         cfgs += [dict(name='STAP')]
     else:
         cfgs += [dict(p=4, q=1), dict(p=3, q=1, r=1), dict(name='STAP'), dict(p=5, r=1)]
+        # every dimension of the property's range in the quick tier too (sign rules that hold for small d only)
+        cfgs += [dict(p=5), dict(p=2, q=3), dict(p=6), dict(p=3, q=3), dict(p=1, q=5), dict(p=4, q=1, r=1), dict(q=6)]
     for i in range(12 if tier == 'quick' else 100):
         d = rng.choice((2, 3, 3, 4))
         pqr = rng.choice(pat.pqr_all(d))
@@ -80,7 +82,7 @@ def cases(tier, seed):
         elif d == 3:
             pats = rng.sample(pat.SUB(3), 25 if tier == 'quick' else 120) + pat.FULL(3) + pat.RND(3, 8, rng)
         else:
-            n = 10 if tier == 'quick' else 40
+            n = (10 if d <= 4 else 4) if tier == 'quick' else 40
             pats = pat.GRD(d, max_grades=2)[: 3 * n] + pat.RND(d, n, rng, max_len=8) + ([pat.FULL(d)[0]] if d == 4 else [])
         for ka in pats:
             out.append(dict(kind='unary', cfg=cfg, ka=list(ka)))
